@@ -11,9 +11,9 @@ import (
 
 func init() {
 	register(&PropSpec{
-		ID: "C06",
+		ID:          "C06",
 		Explanation: "Structural necessary conditions for 'each request receives its own response; request ids are unique'. R1: every request handed to sendRequest (and the connect request) carries a RequestID taken from the connection's id generator on that path; the generator starts even and advances by an even step. R2: sendRequest registers the reply channel, under the connection mutex, before it writes. R3: the router looks up, deletes and delivers by the incoming message's own request id; the not-found edge delivers nothing and releases the lock. R4: every channel stored in the reply table has capacity ≥ 1, so delivery cannot block the router. R5: the waiter selects on the reply, the caller's context and the connection's done channel.",
-		NotDecided: []string{"correlation under arbitrary permutations (follows from R1–R4 only if the broker echoes ids)", "leak of abandoned reply-table entries"},
+		NotDecided:  []string{"correlation under arbitrary permutations (follows from R1–R4 only if the broker echoes ids)", "leak of abandoned reply-table entries"},
 		Rules: func(r *Run) {
 			le := newLockEngine(r.P)
 			ruleC06R1(r)
